@@ -472,7 +472,7 @@ reneg_case(long long seed, long idx)
 	int kind, chunk, who, n_reneg, k;
 	char what[300];
 	vf_rng_init(&r, (uint64_t)seed, (uint64_t)idx * 3 + 4);
-	kind = (int)(idx % 6);      /* 0,1: quiescent; 2: NO_RENEGOTIATION on the receiving side; 3: data in flight; 4: renegotiate() preconditions; 5: three in a row */
+	kind = (int)(idx % 7);      /* 6: rogue peer (saved Finished values tampered on one side); 0,1: quiescent; 2: NO_RENEGOTIATION on the receiving side; 3: data in flight; 4: renegotiate() preconditions; 5: three in a row */
 	chunk = (int)vf_below(&r, 5);
 	who = (int)vf_below(&r, 2);
 	memset(&RI, 0, sizeof RI);
@@ -480,7 +480,7 @@ reneg_case(long long seed, long idx)
 	{
 		uint32_t cf = 0, sf = 0;
 		if (kind == 2) { if (who == 0) sf = BR_OPT_NO_RENEGOTIATION; else cf = BR_OPT_NO_RENEGOTIATION; }
-		if (!sess_start(&s, &r, idx / 6, chunk, cf, sf)) { TP_VIOL("setup", "handshake failed"); sess_end(&s); return; }
+		if (!sess_start(&s, &r, idx / 7, chunk, cf, sf)) { TP_VIOL("setup", "handshake failed"); sess_end(&s); return; }
 	}
 	/* note: the Finished of the first handshake passed the monitor before on_hs was set; attach from the start instead */
 	sess_end(&s);
@@ -492,8 +492,8 @@ reneg_case(long long seed, long idx)
 		int layout_c, layout_s;
 		if (kind == 2) { if (who == 0) sf = BR_OPT_NO_RENEGOTIATION; else cf = BR_OPT_NO_RENEGOTIATION; }
 		layout_c = (int)vf_below(&r, 3); layout_s = (int)vf_below(&r, 3);
-		s.si = tp_suite_find(modes[(idx / 6) % NMODES]);
-		s.version = s.si->tls12only ? 0x0303 : 0x0301 + (unsigned)(((idx / 6) / NMODES) % 3);
+		s.si = tp_suite_find(modes[(idx / 7) % NMODES]);
+		s.version = s.si->tls12only ? 0x0303 : 0x0301 + (unsigned)(((idx / 7) / NMODES) % 3);
 		tp_cfg_default(&s.cc, 0); tp_cfg_default(&s.sc, 1);
 		s.cc.layout = layout_c; s.sc.layout = layout_s;
 		s.cc.buflen = layout_c == TP_LAYOUT_MONO ? BR_SSL_BUFSIZE_MONO : (layout_c == TP_LAYOUT_SPLIT1 ? BR_SSL_BUFSIZE_BIDI : BR_SSL_BUFSIZE_INPUT);
@@ -539,6 +539,35 @@ reneg_case(long long seed, long idx)
 			tp_run_close(&s.p, 0, 100000);
 			if (tp_act_reneg(&s.p.c) != 0 || tp_act_reneg(&s.p.s) != 0) TP_VIOL("reneg:accepted-on-closed-engine", "br_ssl_engine_renegotiate returned 1 on a closed engine");
 			vf_stat("reneg_refusals_checked", 1);
+			goto out;
+		}
+		if (kind == 6) {
+			/* rogue peer: one side's record of the previous Finished values differs in one bit; the
+			   renegotiation is then not bound to the previous handshake and must be refused */
+			int j = (int)((idx / 7) % 24), side = (int)((idx / 7 / 24) & 1);
+			br_ssl_session_parameters sp0, sp1;
+			unsigned char ms0[48], ms1[48];
+			(side ? s.p.s.eng : s.p.c.eng)->saved_finished[j] ^= (unsigned char)(1u << (idx % 8));
+			br_ssl_engine_get_session_parameters(s.p.c.eng, &sp0); memcpy(ms0, sp0.master_secret, 48);
+			br_ssl_engine_get_session_parameters(s.p.s.eng, &sp1); memcpy(ms1, sp1.master_secret, 48);
+			snprintf(tp_case + strlen(tp_case), sizeof tp_case - strlen(tp_case), " tampered=%s.saved_finished[%d]", side ? "server" : "client", j);
+			vf_stat("reneg_rogue_cases", 1);
+			if (!tp_act_reneg(A)) { TP_VIOL("reneg:refused", "br_ssl_engine_renegotiate returned 0 on an idle connection"); goto out; }
+			tp_settle(&s.p, 2000000);
+			br_ssl_engine_get_session_parameters(s.p.c.eng, &sp0);
+			br_ssl_engine_get_session_parameters(s.p.s.eng, &sp1);
+			if ((tp_ep_ready(&s.p.c) && memcmp(ms0, sp0.master_secret, 48) != 0)
+				|| (tp_ep_ready(&s.p.s) && memcmp(ms1, sp1.master_secret, 48) != 0))
+			{
+				TP_VIOL("reneg:completed-without-binding", "renegotiation completed although renegotiation_info did not match the previous Finished values");
+				goto out;
+			}
+			if (br_ssl_engine_last_error(s.p.c.eng) == 0 && br_ssl_engine_last_error(s.p.s.eng) == 0) {
+				TP_VIOL("reneg:unbound-renegotiation-not-refused", "no endpoint reported an error for a renegotiation with wrong renegotiation_info");
+				goto out;
+			}
+			vf_stat("reneg_rogue_refused", 1);
+			vf_stat("reneg_ok", 1);
 			goto out;
 		}
 		if (kind == 3) {
